@@ -23,6 +23,9 @@ import (
 )
 
 type c18Case struct {
+	// Huge: the known-finding slice — a decoration value contains a number beyond the float64
+	// range (1e999), which encoding/json cannot decode into an `any`.
+	Huge      bool     `json:"huge_number,omitempty"`
 	Draft7    bool     `json:"draft7"`
 	Schema    *jv.V    `json:"schema"`
 	Decorated *jv.V    `json:"decorated"`
@@ -373,8 +376,25 @@ func TestC18(t *testing.T) {
 			rec.ClassIf(low, "decoration:case-variant-of-standard-keyword")
 			rec.ClassIf(!low, "decoration:other")
 		}
+		if rapid.IntRange(0, 24).Draw(t, "huge") == 0 && c.Decorated.K == jv.Obj {
+			// known-finding slice (4% of the cases): an unknown keyword or `examples` holding 1e999
+			c.Huge = true
+			if rapid.Bool().Draw(t, "hugekw") {
+				c.Decorated.Set("x-huge", jv.ArrV(jv.NumV("1e999")))
+				c.Added = append(c.Added, "x-huge")
+			} else if !c.Decorated.Has("examples") {
+				c.Decorated.Set("examples", jv.ArrV(jv.NumV("-1e999")))
+				c.Added = append(c.Added, "examples")
+			}
+			rec.Class("feature:number-beyond-float64")
+		}
 		fl := checkC18(c, rec)
 		if fl != nil {
+			if c.Huge && knownOpen("number-beyond-float64-refused") && strings.HasPrefix(fl.Msg, "Unmarshal rejects a document because of") && strings.Contains(c.Decorated.JSON(), "1e999") {
+				rec.Known("number-beyond-float64-refused", "a number beyond the float64 range (1e999) inside an unknown keyword or `examples` makes Unmarshal fail")
+				rec.Case()
+				return
+			}
 			report(t, rec, c, fl)
 		}
 		rec.Case()
